@@ -157,6 +157,11 @@ static void COCSdoTransferFinalize(CO_CSDO *csdo)
         code = csdo->Tfer.Abort;
         call = csdo->Tfer.Call;
 
+        /* stop timeout supervision of finished transfer */
+        if (csdo->Tfer.Tmr >= 0) {
+            (void)COTmrDelete(&(csdo->Node->Tmr), csdo->Tfer.Tmr);
+        }
+
         if (call != NULL) {
             call(csdo, idx, sub, code);
         }
@@ -186,6 +191,8 @@ static void COCSdoTimeout(void *parg)
 
     csdo = (CO_CSDO *)parg;
     if (csdo->State == CO_CSDO_STATE_BUSY) {
+        /* The elapsed one-shot timer is already released */
+        csdo->Tfer.Tmr = -1;
         /* Abort SDO transfer because of timeout */
         COCSdoAbort(csdo, CO_SDO_ERR_TIMEOUT);
         /* Finalize aborted transfer */
